@@ -1,66 +1,75 @@
 (* Response-parser proofs, part 1: byte-string facts for the lax line conventions
    (find_lf = split at the first LF, rstrip_cr). *)
 From Coq Require Import ZifyBool ZifyN.
-From AV Require Import Lib.Base Lib.BytesX Generated.HttpGen Generated.HttpRespGen Model.Http Model.HttpResp
+From AV Require Import Lib.Base Lib.BytesX Lib.Utf8Decode Generated.HttpGen Generated.HttpRespGen Model.Http Model.HttpResp
   Proofs.HttpSegBase.
 Ltac Zify.zify_post_hook ::= Z.to_euclidean_division_equations.
 Open Scope N_scope.
 
-Lemma split_first_aux_app sep : forall x acc y l r,
-  split_first_aux sep acc x = Some (l, r) -> split_first_aux sep acc (x ++ y) = Some (l, r ++ y).
+Lemma split_byte_app sep : forall x y l r,
+  split_byte sep x = Some (l, r) -> split_byte sep (x ++ y) = Some (l, r ++ y).
 Proof.
-  induction x as [|c x IH]; intros acc y l r H; [discriminate|].
-  cbn [app split_first_aux] in *. destruct (c =? sep).
+  induction x as [|c x IH]; intros y l r H; [discriminate|].
+  cbn [app split_byte] in *. destruct (c =? sep).
   - inversion H; subst. reflexivity.
-  - now apply IH.
+  - destruct (split_byte sep x) as [[l0 r0]|] eqn:E; [|discriminate]. inversion H; subst.
+    rewrite (IH y l0 r eq_refl). reflexivity.
 Qed.
 
-Lemma split_first_aux_shape sep : forall x acc l r,
-  split_first_aux sep acc x = Some (l, r) -> exists m, l = rev acc ++ m /\ x = m ++ sep :: r.
+Lemma split_byte_shape sep : forall x l r, split_byte sep x = Some (l, r) -> x = l ++ sep :: r.
 Proof.
-  induction x as [|c x IH]; intros acc l r H; [discriminate|].
-  cbn [split_first_aux] in H. destruct (c =? sep) eqn:E.
-  - inversion H; subst. apply N.eqb_eq in E. subst. exists []. rewrite app_nil_r. split; reflexivity.
-  - apply IH in H as (m & -> & ->). exists (c :: m). cbn [rev]. rewrite <- app_assoc. split; reflexivity.
+  induction x as [|c x IH]; intros l r H; [discriminate|].
+  cbn [split_byte] in H. destruct (c =? sep) eqn:E.
+  - inversion H; subst. apply N.eqb_eq in E. subst. reflexivity.
+  - destruct (split_byte sep x) as [[l0 r0]|] eqn:E2; [|discriminate]. inversion H; subst.
+    cbn [app]. f_equal. now apply IH.
 Qed.
 
-Lemma split_first_aux_none_app sep : forall ct acc d l r,
-  split_first_aux sep acc ct = None -> split_first_aux sep acc (ct ++ d) = Some (l, r) ->
-  (length r < length d)%nat.
+Lemma split_byte_none_app sep : forall ct d l r,
+  split_byte sep ct = None -> split_byte sep (ct ++ d) = Some (l, r) -> (length r < length d)%nat.
 Proof.
-  induction ct as [|c ct IH]; intros acc d l r Hn Hs.
-  - cbn [app] in Hs. apply split_first_aux_shape in Hs as (m & _ & ->). rewrite app_length. cbn [length]. lia.
-  - cbn [app split_first_aux] in *. destruct (c =? sep); [discriminate|]. eapply IH; eassumption.
+  induction ct as [|c ct IH]; intros d l r Hn Hs.
+  - cbn [app] in Hs. apply split_byte_shape in Hs. subst. rewrite app_length. cbn [length]. lia.
+  - cbn [app split_byte] in *. destruct (c =? sep); [discriminate|].
+    destruct (split_byte sep ct) as [[l0 r0]|] eqn:E; [discriminate|].
+    destruct (split_byte sep (ct ++ d)) as [[l1 r1]|] eqn:E2; [|discriminate]. inversion Hs; subst.
+    eapply IH; [reflexivity|exact E2].
+Qed.
+
+Lemma split_byte_none_has sep : forall x, split_byte sep x = None <-> has_byte sep x = false.
+Proof.
+  induction x as [|c x IH]; cbn [split_byte has_byte]; [tauto|].
+  destruct (c =? sep); cbn [orb]; [split; discriminate|].
+  destruct (split_byte sep x) as [[l r]|]; [split; [discriminate|]|tauto].
+  intro H. apply IH in H. discriminate.
+Qed.
+
+(* the part before the separator starts with the first byte of the string *)
+Lemma split_byte_head sep c x l r : split_byte sep (c :: x) = Some (l, r) -> l = [] \/ exists l', l = c :: l'.
+Proof.
+  cbn [split_byte]. destruct (c =? sep); [intro H; inversion H; auto|].
+  destruct (split_byte sep x) as [[l0 r0]|]; [|discriminate]. intro H. inversion H; subst. right. eauto.
 Qed.
 
 Lemma find_lf_app x y l r : find_lf x = Some (l, r) -> find_lf (x ++ y) = Some (l, r ++ y).
-Proof. apply split_first_aux_app. Qed.
+Proof. apply split_byte_app. Qed.
 
 Lemma find_lf_shape x l r : find_lf x = Some (l, r) -> x = l ++ 10 :: r.
-Proof. intro H. apply split_first_aux_shape in H as (m & -> & ->). reflexivity. Qed.
+Proof. apply split_byte_shape. Qed.
 
 Lemma find_lf_len x l r : find_lf x = Some (l, r) -> length x = (length l + length r + 1)%nat.
 Proof. intro H. apply find_lf_shape in H. subst. rewrite app_length. cbn [length]. lia. Qed.
 
 Lemma find_lf_none_app ct d l r :
   find_lf ct = None -> find_lf (ct ++ d) = Some (l, r) -> (length r < length d)%nat.
-Proof. apply split_first_aux_none_app. Qed.
-
-Lemma split_first_aux_none_has sep : forall x acc, split_first_aux sep acc x = None <-> has_byte sep x = false.
-Proof.
-  induction x as [|c x IH]; intros acc; cbn [split_first_aux has_byte]; [tauto|].
-  destruct (c =? sep); cbn [orb]; [split; discriminate|apply IH].
-Qed.
+Proof. apply split_byte_none_app. Qed.
 
 Lemma find_lf_none_has x : find_lf x = None <-> has_byte 10 x = false.
-Proof. apply split_first_aux_none_has. Qed.
+Proof. apply split_byte_none_has. Qed.
 
 (* rstrip_cr never lengthens a line *)
-Lemma lstrip_cr_len s : (length (lstrip_cr s) <= length s)%nat.
-Proof. induction s as [|c s IH]; cbn [lstrip_cr length]; [lia|]. destruct (c =? 13); cbn [length]; lia. Qed.
-
 Lemma rstrip_cr_len s : (length (rstrip_cr s) <= length s)%nat.
-Proof. unfold rstrip_cr. rewrite rev_length. pose proof (lstrip_cr_len (rev s)). rewrite rev_length in H. exact H. Qed.
+Proof. apply rstrip_by_len. Qed.
 
 Lemma rstrip_cr_lenN s : lenN (rstrip_cr s) <= lenN s.
 Proof. unfold lenN. pose proof (rstrip_cr_len s). lia. Qed.
